@@ -125,13 +125,14 @@ def rangeDerefIndex (fr t i : Int) : Except Unit Int :=
 
 /-! ## vm_execute_string_deref -/
 
-/-- the guard exactly as written: `if (index >= (int)strlen(str)) → oob`; there is NO `< 0` test. -/
+/-- the guard exactly as written: `if (index < 0 || index >= (int)strlen(str)) → oob`
+(the `index < 0` half was added by the `fix:` commit f8907f0; the pinned tree lacked it) -/
 def stringDerefOk (len : Nat) (i : Int) : Bool :=
-  !(decide (i ≥ (len : Int)))
-
-/-- the guard with the missing test added. -/
-def stringDerefOkFixed (len : Nat) (i : Int) : Bool :=
   !(decide (i < 0) || decide (i ≥ (len : Int)))
+
+/-- the guard of the pinned tree (before the fix): no lower-bound test; kept for the record -/
+def stringDerefOkPinned (len : Nat) (i : Int) : Bool :=
+  !(decide (i ≥ (len : Int)))
 
 /-! ## vm_execute_slice_string -/
 
